@@ -246,6 +246,12 @@ class InnerProxy(Model):
       return z3.Select(IM.ivals(self.im()), ts)
     raise PyRaise(ExcVal('KeyError', (ts,)))
 
+  def py_get(self, ip, ts, default=None):
+    ts = TReal.enc(ip, ts)
+    if ip.ctx.branch(z3.Select(IM.ikeys(self.im()), ts), 'ts present'):
+      return z3.Select(IM.ivals(self.im()), ts)
+    return default
+
   def py___setitem__(self, ip, ts, v):
     ts = TReal.enc(ip, ts)
     v = TVal.enc(ip, v)
